@@ -1215,3 +1215,80 @@ def clobbered_after_set(prog, fns):
                 _, fc = effects(c2)
                 for fld in sorted(fp & fc):
                     yield f, fld, c1, c2, s2.get("span")
+
+
+# ------------------------------------------------------------------------------------------------ fixed tables built by pushing
+def pushed_fixed_tables(prog, fns):
+    """`Vec::with_capacity(n)` filled by `push` in a counted loop and frozen with `into_boxed_slice()`: the table's length is the number
+    of pushes, not n.  Where the loop bound is another quantity than n (the entries an image stores vs the size of the table it
+    describes) the free slots are gone: a list that must take one more coupon has nowhere to put it.
+    yields (fn, verdict, capacity expr, loop bound expr | None, span); verdict False = bound differs from capacity and nothing
+    resizes the vector, None = not decidable (no counted loop / resized / bound not found)"""
+    for f in fns:
+        if f.promoted:
+            continue
+        s = None
+        for b, site in f.calls():
+            if (site.get("callee") or "").rsplit("::", 1)[-1] != "into_boxed_slice" or not site["args"]:
+                continue
+            pl = ir.op_place(site["args"][0])
+            if pl is None:
+                continue
+            vec = ir.pl_local(pl)
+            # follow moves back to the local that was created
+            for _ in range(4):
+                d = f.single_def(vec)
+                if d is not None and d[2] == "assign" and f.blocks[d[0]].stmts[d[1]][2][0] == "use" and ir.op_place(f.blocks[d[0]].stmts[d[1]][2][1]) is not None:
+                    vec = ir.pl_local(ir.op_place(f.blocks[d[0]].stmts[d[1]][2][1]))
+                else:
+                    break
+            defs = [d for d in f.defs().get(vec, []) if d[2] == "call"]
+            if len(defs) != 1:
+                continue
+            mk = f.blocks[defs[0][0]].term[1]
+            if (mk.get("callee") or "").rsplit("::", 1)[-1] != "with_capacity" or not mk["args"]:
+                continue
+            s = s or Sym(prog, f)
+            cap = s.at(defs[0][0], "t").operand(mk["args"][0])
+            pushes, other = [], 0
+            for b2, st2 in f.calls():
+                nm = (st2.get("callee") or "").rsplit("::", 1)[-1]
+                if not st2["args"]:
+                    continue
+                p2 = ir.op_place(st2["args"][0])
+                if p2 is None:
+                    continue
+                loc = ir.pl_local(p2)
+                d2 = f.single_def(loc)
+                if d2 is not None and d2[2] == "assign":
+                    rv = f.blocks[d2[0]].stmts[d2[1]][2]
+                    if rv[0] == "ref":
+                        loc = ir.pl_local(rv[2])
+                if loc != vec:
+                    continue
+                if nm == "push":
+                    pushes.append(b2)
+                elif nm in ("resize", "resize_with", "extend", "extend_from_slice", "append", "insert", "set_len", "truncate"):
+                    other += 1
+            if not pushes or other:
+                yield f, None, cap, None, site.get("span")
+                continue
+            bound = None
+            for (h, body) in s.loops():
+                if not all(pb in body for pb in pushes):
+                    continue
+                for hb in sorted(body):
+                    t = f.blocks[hb].term
+                    if t[0] == "call" and (t[1].get("callee") or "").rsplit("::", 1)[-1] == "next" and t[1]["args"]:
+                        it = s.at(hb, "t").operand(t[1]["args"][0])
+                        rg = find_sub(it, lambda x: x[0] == "agg" and "Range" in str(x[1]) and len(x[2]) == 2)
+                        if rg is not None:
+                            bound = rg[2][1]
+                            if rg[2][0] != ("const", 0):
+                                bound = None
+                        break
+                break
+            if bound is None:
+                yield f, None, cap, None, site.get("span")
+            else:
+                yield f, (show(bound) == show(cap)) or None if show(bound) == show(cap) else False, cap, bound, site.get("span")
